@@ -7,6 +7,7 @@ import ast
 from ..core import Ctx, RuleResult, finding, short, walk_no_nested
 from ..model import AnalysisError, norm
 from ..rules import sib, snap, wrap
+from ..rules.defuse import DefUse
 from ..rules.util import callee_name, calls_in, cfg_of, node_exprs, nodes_where
 from ..tables import C13_SIB_EXCEPTIONS
 
@@ -279,10 +280,14 @@ def rule_select_zmq(ctx: Ctx) -> RuleResult:
     # _loop: the alarm is popped only on the empty-ready path, idle only when _did_something
     for key in ("select", "zmq"):
         lp = p.func(f"{LOOPS[key]}._loop")
-        cfg = cfg_of(lp)
+        pops = None
+        du = DefUse(lp)
+        cfg = du.cfg
         pops = nodes_where(cfg, lambda s: isinstance(s, ast.Call) and ast.unparse(s.func) == "heapq.heappop")
         idle = nodes_where(cfg, lambda s: isinstance(s, ast.Call) and callee_name(s) == "_entering_idle")
-        empties = [n for n in cfg.nodes if n.kind == "test" and isinstance(n.ast, ast.UnaryOp) and isinstance(n.ast.op, ast.Not) and ast.unparse(n.ast.operand) == "ready"]
+        # the ready set by role: the local whose definition calls the selector's select() / the poller's poll()
+        ready = {nm for nm, ds in du.defs.items() for _dn, v, _how in ds if isinstance(v, ast.AST) and any(isinstance(x, ast.Call) and isinstance(x.func, ast.Attribute) and x.func.attr in ("select", "poll") for x in ast.walk(v))}
+        empties = [n for n in cfg.nodes if n.kind == "test" and isinstance(n.ast, ast.UnaryOp) and isinstance(n.ast.op, ast.Not) and isinstance(n.ast.operand, ast.Name) and n.ast.operand.id in ready]
         rr.inst(f"{key}._loop: alarm/idle only when nothing is ready", True, {"loop": key, "pop_sites": len(pops), "idle_sites": len(idle)})
         if not pops or not idle or not empties:
             raise AnalysisError(f"{key}._loop: heappop / _entering_idle / `if not ready` not found")
